@@ -112,7 +112,7 @@ class Injector:
                 os.kill(os.getpid(), signal.SIGTERM)
                 time.sleep(30)
             if self.action == 'park':
-                time.sleep(120)
+                time.sleep(40)
                 os._exit(98)
         return None
 
